@@ -171,6 +171,38 @@ PROPS = {
             "a parser panic or rejection makes the case inapplicable (C07's subject)",
         ],
     ),
+    "C09": dict(
+        regress="TestC09Regress",
+        subs=[dict(test="TestC09Range", quick=8000, thorough=60000)],
+        rule="A generated type with 1-4 attributes over all kinds, a collection of 0-10 resources with unique IDs and values from 3-value domains "
+             "(ties are common; nil values for nullable kinds) held as SoftCollection / Resources of soft resources / Resources of wrapped structs / "
+             "WrapperCollection; an ID list (empty, or a permuted duplicate-free subset plus an absent ID); nil or a well-typed filter tree built "
+             "relative to a member; 0-4 rules over attributes and id with and without '-'; size in {0,1,2,3,n,n+1,2^31,2^63-1,2^63,2^64-1}, "
+             "number 0-5 for small sizes. Oracle: reference model select -> filter (C10 evaluator) -> order -> slice. Always: no panic, non-nil "
+             "result, input order unchanged, page = single matching resources, non-decreasing under the rules, of the exact length; if the rules "
+             "contain id: exact ID sequence, also for a shuffled collection held by another implementation; for sizes 1-4: pages 0..ceil(n/size) "
+             "partition the matches, stay ordered across page borders, and the page after the last is empty. Non-trivial = >=3 matches, >=1 rule "
+             "other than id, and a tie or nil on the first rule or 0<size<matches.",
+        assumptions=COMMON_ASSUMPTIONS + ["ID lists are duplicate-free subsets (the statement quantifies over ID subsets)",
+                                          "without id in the rules only sortedness, permutation and partition are required, never a particular order of ties"],
+    ),
+    "C10": dict(
+        regress="TestC10Regress",
+        subs=[
+            dict(test="TestC10Matrix", kind="plain"),
+            dict(test="TestC10Leaf", quick=30000, thorough=250000),
+            dict(test="TestC10Tree", quick=15000, thorough=120000),
+        ],
+        rule="Leaf sub-check: one attribute of any of the 28 kinds, a resource value and a filter value drawn as a pair class (equal - for times "
+             "the same instant in another zone -, adjacent +-1 / one byte changed / prefix, random, nil on either side), all seven operators "
+             "(=, !=, <, <=, >, >=, unknown) evaluated on a SoftResource and on a wrapped StructOf struct holding the same value, against an independent "
+             "evaluator (big.Int, strings.Compare, bytes.Compare, time.Compare) plus the laws (= xor !=; exactly one of <,=,>; <= and >= as "
+             "disjunctions). Tree sub-check: types of 1-5 attributes plus to-one/to-many relationships, trees of and/or to depth 4 with 0-4 children, "
+             "leaves incl. in/has and set (in)equality. Matrix: operator x kind x nullable x representative pairs (incl. [2 1] vs [1 2], 2^63 "
+             "boundaries, nil on either/both sides) and connectives with empty child lists, enumerated on every run. Non-trivial = adjacent or nil "
+             "pair class (leaf); depth>=3 mixing and/or (tree); nil or unequal pair (matrix).",
+        assumptions=COMMON_ASSUMPTIONS + ["filters are well typed (value of the field's Go type, typed nil for nullable kinds); ordering operators on to-one relationships are not generated"],
+    ),
 }
 
 LEVEL_NOTE = ("Trusted base: Go toolchain and runtime, encoding/json, reflect, rapid v1.3.0, the harness' own generators and "
@@ -178,6 +210,16 @@ LEVEL_NOTE = ("Trusted base: Go toolchain and runtime, encoding/json, reflect, r
               "violation is not a proof.")
 
 MANIFEST_TEXT = {
+    "C09": dict(
+        technique="property-based testing (rapid): reference model (select/filter/order/slice) + validity predicate and partition relation for non-total orders",
+        level_text="Exploration: every case runs Range several times (page, shuffled twin on another implementation, all consecutive pages) against a model built on the C10 reference evaluator.",
+        level_note=LEVEL_NOTE,
+    ),
+    "C10": dict(
+        technique="property-based testing (rapid): differential against an independent evaluator, algebraic laws, enumerated operator x kind x class matrix",
+        level_text="Exploration: leaf pairs are drawn by class so that each comparison class is hit on purpose; the operator/kind/class matrix is enumerated on every run; both resource implementations must agree with the reference.",
+        level_note=LEVEL_NOTE,
+    ),
     "C07": dict(
         technique="property-based testing (rapid) from structured request descriptions + raw/mutated strings + native coverage-guided fuzzing (thorough)",
         engine="rapid + go-native-fuzz",
